@@ -672,7 +672,9 @@ theorem gen_accessors_hand_out_copies :
 theorem gen_copy_facts_eq_ref :
     Csvq.Gen.copyFacts.map (fun f => { f with site := f.file }) = Csvq.Ref.copyFacts ∧
     Csvq.Gen.copyFunctions = Csvq.Ref.copyFunctions ∧
-    Csvq.Gen.dmlWrites.map (fun w => { w with site := w.file }) = Csvq.Ref.dmlWrites := by decide
+    Csvq.Gen.dmlWrites.map (fun w => { w with site := w.file }) = Csvq.Ref.dmlWrites ∧
+    Csvq.Gen.fileInfoCopies.map (fun w => { w with site := w.file }) = Csvq.Ref.fileInfoCopies ∧
+    Csvq.Gen.fileInfoInstalls.map (fun w => { w with site := w.file }) = Csvq.Ref.fileInfoInstalls := by decide
 
 /-! ### not vacuous: the shapes of the known defects of this class are rejected, with the site named -/
 
